@@ -15,6 +15,7 @@ import re
 import struct
 
 TARGETS = ('x86_64-sysv', 'aarch64', 'riscv64')
+MAX_OBJECT = 1 << 24        # larger data objects are treated as unreadable
 
 
 def alignup(x, a):
@@ -507,7 +508,7 @@ def parse_asm(text, align_is_p2=False):
             ops = _split_operands(arg)
             n = _asm_int(ops[0])
             fill = _asm_int(ops[1]) if len(ops) > 1 else 0
-            if n is None or fill is None:
+            if n is None or fill is None or not 0 <= n <= MAX_OBJECT:
                 raise AsmError('bad %r' % ln)
             curimg += bytes([fill & 0xff]) * n
         elif d == '.fill':
@@ -619,6 +620,8 @@ def parse_qbe_data(il):
             elif t.group(7) is not None:
                 v = int(t.group(7))
                 if ty == 'z':
+                    if not 0 <= v <= MAX_OBJECT:
+                        raise AsmError('absurd zero fill of %d bytes in %s' % (v, name))
                     img += bytes(v)
                 else:
                     img += (v % (1 << (8 * _QSIZE[ty]))).to_bytes(_QSIZE[ty], 'little')
